@@ -79,7 +79,8 @@ def random_cmds(rng, T, n):
 
 def boundary_cmds(T, TA):
     """deterministic commands at the case-split boundaries of the model / proofs: all 256 vpternlog predicates (x 3 shapes), memory operand sizes
-    around the 64-byte clamp for one instruction of every RW category, operand counts 0..6, a64 element index x size around 64"""
+    around the 64-byte clamp for one instruction of every RW category, operand counts 0..6, a64 element index x size around 64,
+    one instruction per reg/mem record x operand shapes x {er}/{z}/{k} (the case splits of the whole-path theorems)"""
     cmds = []
     K = T["K"]
     for iid in (K["kIdVpternlogd"], K["kIdVpternlogq"]):
@@ -99,6 +100,22 @@ def boundary_cmds(T, TA):
                 cmds.append("Q %d %d 0 1 3 r13:1 r13:2 m%d:2:0" % (arch, iid, sz))
         for n in range(0, 7):
             cmds.append("Q 1 %d 0 0 %d %s" % (iid, n, " ".join(["r5:1", "r6:2", "r11:3", "m8:2:0", "i1", "r16:2"][:n])))
+    # round 6: the case splits of the whole-path proofs - one instruction per reg/mem record (RWInfoRm: candidate mask, flags incl. movss/movsd,
+    # pextrw, rm_feature-if-imm) x register/memory/immediate shapes x {no option, {er}, {z}} x {no mask, {k}}: reg/mem marking, the
+    # single-candidate rule, "never with {er}", merge-masking vs zeroing, the extend mask cleared by movss/movsd
+    by_rm = {}
+    for i in T["I"]:
+        for row in (T["RA"][i["a"]], T["RB"][i["b"]]):
+            if row["cat"] <= 1:
+                by_rm.setdefault(row["rm"], i["id"])
+    shapes = [["r11:1", "r11:2"], ["r11:1", "m16:2:0"], ["m16:2:0", "r11:1"], ["r5:1", "r11:2"], ["r11:1", "r5:2"], ["r28:1", "r5:2"], ["r6:1", "r28:2"],
+              ["r11:1", "r11:2", "r11:3"], ["r13:1", "r13:2", "m64:2:0"], ["r12:1", "r12:2", "i1"], ["r12:1", "m32:2:0", "i1"], ["r5:1", "r28:2", "i1"],
+              ["r11:1", "r11:2", "r11:3", "i240"], ["r11:1"], ["m8:2:0"]]
+    for rmi, iid in sorted(by_rm.items()):
+        for sh in shapes:
+            for opt in (0, G.OPT_ER, G.OPT_ZMASK):
+                for extra in (0, 1):
+                    cmds.append("Q 1 %d %d %d %d %s" % (iid, opt, extra, len(sh), " ".join(sh)))
     some = [i["id"] for i in TA["I"][:400:37]]
     for iid in some:
         for k, es in (("b", 1), ("h", 2), ("s", 4), ("d", 8)):
